@@ -706,7 +706,13 @@ def check_table(ctx, vh, entry, name, snaps, case, alias):
     if first is None:
         return
     foc, sim = sig.focused_signature, sig.simplified_signature
-    rx = RowRegex(sim) if sim else None
+    try:
+        rx = RowRegex(sim) if sim else None
+    except Exception as exc:  # noqa
+        # a table SQLite wrote whose simplified signature yields no regular expression: no live row is admitted
+        ctx.oracle_fail("no-regex", f"no regular expression for the signature of a table written by SQLite: {classify(exc)}",
+                        dict(case, table=name, simplified=[list(c) for c in sim][:8]), str(exc)[:200], "a pattern")
+        rx = None
     if sig.unique_records != len(examined) or sig.total_records != sum(len(v) for v in tap.versions):
         ctx.oracle_fail("counts", "unique/total records differ from the distinct / total cells examined",
                         dict(case, table=name), (sig.unique_records, sig.total_records),
@@ -901,7 +907,7 @@ def run_real(ctx, n_db, n_hist, n_shapes):
             n0 = len(ctx.oracle_failures)
             check_db_file(ctx, p, {"t": live_columns(p, "t")}, {"shape": shape, "seed": ctx.seed, "tag": f"shape{i}"})
             C.keep_failing_files(ctx, n0, p)
-        kinds = ["plain", "ddl", "plain", "overflow_inplace", "ddl", "grow_shrink", "spill", "checkpoint_restart"]
+        kinds = ["plain", "rootmove", "ddl", "plain", "overflow_inplace", "rootmove", "ddl", "grow_shrink", "spill", "checkpoint_restart", "fresh_wal"]
         for i in range(n_hist):
             cfg = F.random_cfg(r, page_sizes=[512, 1024, 4096], small=True)
             cfg["auto_vacuum"] = [0, 1, 2][i % 3]
